@@ -432,6 +432,8 @@ JudgeProvideSingle(s, e, p) ==
        C13_single_deposit_ratio_within_tolerance |-> G(good /\ e.liq_slip.set /\ pl.kind = "cp" /\ BLe(e.liq_slip.v, Dec18) /\ AllPositive(resMid),
                                                        DepositRatioWithin(dep, resMid, e.liq_slip.v)),
        \* "exactly the effect of swapping half and then depositing": accepted only if both steps of that sequence would be
+       \* where the scenario's author knows the two-step sequence works (recorded as expect_ok), the one-step form works too
+       C14_available_where_the_two_steps_are |-> G("expect_ok" \in DOMAIN e /\ e.expect_ok, e.ok),
        C14_accepted_only_if_the_two_steps_would_be |-> G(good /\ half # Z /\ pl.kind = "cp" /\ AllPositive(resMid),
                                                          /\ SwapAllowedNoBelief(pl, o, a, half, q.ret, Tol(e.swap_slip))
                                                          /\ ((e.liq_slip.set /\ BLe(e.liq_slip.v, Dec18)) => DepositRatioWithin(dep, resMid, e.liq_slip.v))),
